@@ -42,8 +42,8 @@ class Builder:
         self.ncmd += 1
         return "c%d" % self.ncmd
 
-    def deploy(self, name, host, scripts, dt, ptimeout, async_=True, rollout=False, drain=SEC):
-        names = self.names(len(scripts))
+    def deploy(self, name, host, scripts, dt, ptimeout, async_=True, rollout=False, drain=SEC, names=None):
+        names = names or self.names(len(scripts))
         st = {"op": "rollout_deploy" if rollout else "deploy", "id": self.cmd(), "async": async_, "name": H(name),
               "targets": [{"name": H(n), "probes": s} for n, s in zip(names, scripts)],
               "deploy_timeout": dt, "drain_timeout": drain}
@@ -205,6 +205,45 @@ def gen_scenario(rnd, shape):
     return b.finish()
 
 
+def gen_same_names(rnd):
+    """The service is redeployed with the SAME target names (same host:port, new Target objects): the new objects must be
+    probed afresh, whatever the health of the objects they replace - healthy old / failing new, and the reverse."""
+    b = Builder(rnd)
+    b.meta["shape"] = {"mix": "same_names"}
+    host, name = b"a.example.com", b"web"
+    ptimeout = rnd.choice([500 * MS, 2 * SEC])
+    n = rnd.choice([1, 2])
+    b.deploy(name, host, [["ok"] for _ in range(n)], 5 * SEC, ptimeout, async_=False)
+    names = [t.encode() for t in b.meta["deploys"][-1]["targets"]]
+    b.request(host, "old")
+    b.sleep(0)
+    first_bad = rnd.random() < 0.5
+    if first_bad:               # the deployed targets turn unhealthy, then the same names are redeployed and keep failing
+        b.steps.append({"op": "probe_script", "targets": [{"name": H(x), "probes": [rnd.choice(["refused", "status:500"])]} for x in names]})
+        b.sleep(2 * SEC + 100 * MS)
+    scripts = [[rnd.choice(["refused", "status:503", "status:302"])] for _ in names]
+    if not first_bad and n == 2 and rnd.random() < 0.5:
+        scripts[0] = ["ok"]
+    dt = rnd.choice([2 * SEC, 3 * SEC])
+    b.deploy(name, host, scripts, dt, ptimeout, names=names)
+    for mk in [1, 500 * MS, 1 * SEC, dt - 1 - 1500 * MS - 1, 2]:
+        b.sleep(max(mk, 0))
+        b.request(host, "during")
+    b.sleep(1 * SEC)
+    for _ in range(3):
+        b.request(host, "after-wait")
+    b.sleep(1 * SEC)
+    # finally the same names once more, now answering: the deploy succeeds after fresh probes
+    b.deploy(name, host, [["status:503", "ok"] for _ in names], 3 * SEC, ptimeout, names=names)
+    b.sleep(500 * MS)
+    b.request(host, "during")
+    b.sleep(1 * SEC)
+    b.request(host, "after")
+    b.sleep(1 * SEC)
+    b.request(host, "after")
+    return b.finish()
+
+
 def gen_shapes(rnd, n):
     shapes = []
     mixes = ["all_ok", "all_late", "one_never", "none", "edge", "edge", "flap", "one_never"]
@@ -351,6 +390,7 @@ def run(tier, seed):
         n_directed, n_random = (72, 8) if tier == "quick" else (640, 160)
         shapes = gen_shapes(rnd, n_directed)
         scen_meta = [gen_scenario(rnd, sh) for sh in shapes]
+        scen_meta += [gen_same_names(random.Random(seed * 131 + k)) for k in range(6 if tier == "quick" else 60)]
         scenarios = [s for s, _ in scen_meta]
         metas = [m for _, m in scen_meta]
         rand = m5lb.random_scenarios(rnd, n_random, PROFILES, 8, 25)
